@@ -183,9 +183,21 @@ def run(repo: Repo, chk: Check, thorough: bool = False) -> None:
     rc = repo.mod('pydoctor.stanutils').assigns.get('_RE_CONTROL')
     excl = [c.value for c in ast.walk(rc) if isinstance(c, ast.Constant) and isinstance(c.value, str) and c.value and
             all(ord(ch) < 32 for ch in c.value)] if rc is not None else []
-    ok = rc is not None and 'range(0, 32)' in norm(rc) and len(excl) == 1 and set(excl[0]) <= set('\r\n\t\f')
+    # oracle: XML 1.0 `Char ::= #x9 | #xA | #xD | [#x20-#xD7FF] | [#xE000-#xFFFD] | [#x10000-#x10FFFF]` - of the C0 range only TAB, LF and CR are
+    # legal (a FORM FEED is not: this rule used to accept it because the code did), and U+FFFE / U+FFFF are not characters either
+    ok = rc is not None and 'range(0, 32)' in norm(rc) and len(excl) == 1 and set(excl[0]) <= set('\r\n\t')
     chk.ob('R10.4', 'pydoctor.stanutils._RE_CONTROL :: covers the C0 range', ok,
-           'characters 0..31 except \\r \\n \\t \\f' if ok else '_RE_CONTROL no longer built from range(0, 32)', 'pydoctor/stanutils.py')
+           'characters 0..31 except \\r \\n \\t' if ok else
+           ('_RE_CONTROL no longer built from range(0, 32)' if rc is None or 'range(0, 32)' not in norm(rc) else
+            f'the filter leaves {sorted(set(excl[0]) - set(chr(9) + chr(10) + chr(13)))!r} alone, which XML 1.0 does not allow: a form feed in a docstring (or a default value) makes '
+            'the XML parser reject the generated markup - the docstring falls back to plain text, a signature to `(...)`'), 'pydoctor/stanutils.py')
+    sm = repo.mod('pydoctor.stanutils')
+    nonchars = {ch for v in sm.assigns.values() for c in ast.walk(v) if isinstance(c, ast.Constant) and isinstance(c.value, (str, bytes))
+                for ch in ('\ufffe', '\uffff') if (ch in c.value if isinstance(c.value, str) else ch.encode('utf8') in c.value)}
+    chk.ob('R10.4', 'pydoctor.stanutils :: the non-characters U+FFFE and U+FFFF are neutralised too', len(nonchars) == 2,
+           'both appear in a filter of stanutils' if len(nonchars) == 2 else
+           "`end='\\uffff'` as a default value (the usual upper bound of a key range) blanks the whole signature to `(...)`; in a docstring it turns the whole docstring into "
+           'plain text', 'pydoctor/stanutils.py')
     check_control_escape(repo, chk, 'R10.4')
     chk.require('R10.4', 5)
 
